@@ -502,7 +502,7 @@ func toFloatPair(x, y any) (float64, float64, bool) {
 func toInt(v any) (int, bool, bool) {
 	switch v := v.(type) {
 	case decimal128.Decimal:
-		if v.IsNaN() {
+		if v.IsNaN() || !decimal128.Floor(v).Equal(v) {
 			return 0, true, false
 		}
 
